@@ -81,6 +81,10 @@ func dst6(e *vh.WireEnv, name string) packet.Addr {
 		return packet.IP6AllRoutersAddr
 	case "lib:solnode":
 		return packet.IPv6SolicitedNode(e.IP("lla1"))
+	case "lib:solnode:gua":
+		return packet.IPv6SolicitedNode(e.IP("gua1"))
+	case "u:hostlla":
+		return packet.Addr{MAC: e.MAC("hostmac"), IP: e.IP("hostlla")}
 	}
 	if strings.HasPrefix(name, "u:") {
 		return packet.Addr{MAC: e.MAC("mac1"), IP: e.IP(name[2:])}
@@ -284,6 +288,12 @@ func dirtyPool() {
 func (s *sender) call(c *nicCtx, e *vh.WireEnv, call jmap, rng *rand.Rand) (out outcome) {
 	f := jstr(call, "f")
 	id, seq := uint16(rng.Intn(65536)), uint16(rng.Intn(65536))
+	switch rng.Intn(6) { // boundary values of the 16 bit fields now and then
+	case 0:
+		id, seq = 0, 0xffff
+	case 1:
+		id, seq = 0xffff, 0
+	}
 	e.Args["arg.id"], e.Args["arg.seq"] = strconv.Itoa(int(id)), strconv.Itoa(int(seq))
 	e.Args["arg.mtu"] = strconv.Itoa(c.nic.MTU)
 	var err error
@@ -322,6 +332,8 @@ func (s *sender) call(c *nicCtx, e *vh.WireEnv, call jmap, rng *rand.Rand) (out 
 		for i := 0; i < jint(call, "np"); i++ {
 			p := net.IP{0x20, 0x01, 0x0d, 0xb8, byte(rng.Intn(256)), byte(rng.Intn(256)), 0, byte(i + 1), 0, 0, 0, 0, 0, 0, 0, 0}
 			prefixes = append(prefixes, packet.PrefixInformation{PrefixLength: 64, Prefix: p})
+			a, _ := netip.AddrFromSlice(p)
+			e.Args["arg.prefix"+strconv.Itoa(i+1)] = a.String() + "/64"
 		}
 		var rdnss *packet.RecursiveDNSServer
 		if jbool(call, "rdnss") {
@@ -536,6 +548,11 @@ func (s *sender) runVector(v jmap, inst int, seed int64, r *result) {
 		}
 	}
 	r.Flat = flat
+	if abs != nil {
+		for _, n := range abs.Notes {
+			r.add("note", "wire."+n, "%s: %s", fn, n)
+		}
+	}
 	kf := map[string]string{}
 	for _, x := range jlist(mech, "kf") {
 		m := x.(map[string]interface{})
